@@ -12,6 +12,7 @@ unchanged.  Single-variable results are compared as lists (each once, in order),
 from __future__ import annotations
 
 import gc
+import os
 
 import eqlmc  # noqa: F401
 from entity_query_language import (an, entity, set_of, let, the, infer, symbolic_mode, rule_mode, Add, alternative,
@@ -54,10 +55,13 @@ SPECS = {
     "union": ("Q", "an", "setof", (X, Y), (("or", ("cmp", "eq", xp, L(1)), ("cmp", "eq", yq, L(2))),), (VX, VY)),
     "negand": ("Q", "an", "setof", (X, Y), (("not", ("and", ("cmp", "eq", xp, yp), ("cmp", "eq", yq, L(2)))),), (VX, VY)),
     "xonly": ("Q", "an", "entity", X, (("cmp", "ge", xp, L(2)),), (VX,)),
+    # a conjunction whose right conjunct shares no variable with the left one (pure Cartesian combination)
+    "indep": ("Q", "an", "setof", (X, Y), (("and", ("cmp", "ge", xp, L(2)), ("cmp", "ge", yq, L(2))),), (VX, VY)),
     # pool B: user code (faults) and a conjunction of two unions
     "pred": ("Q", "an", "entity", X, (("and", ("pf", "p_eq", (X, L(2))), ("cmp", "ge", xq, L(1))),), (VX,)),
     "pcls": ("Q", "an", "entity", X, (("pc", "PEq", (X, L(2))),), (VX,)),
     "meth": ("Q", "an", "setof", (X, Y), (("and", ("t", ("c", X, "is_p", (2,))), ("cmp", "lt", xq, yq)),), (VX, VY)),
+    "indep_pred": ("Q", "an", "setof", (X, Y), (("and", ("cmp", "ge", xq, L(1)), ("pf", "p_eq", (Y, L(1)))),), (VX, VY)),
     "and_unions": ("Q", "an", "setof", (X, Y),
                    (("and", ("or", ("cmp", "eq", xp, L(1)), ("cmp", "eq", yq, L(2))),
                      ("or", ("cmp", "eq", xq, L(1)), ("cmp", "eq", yp, L(3)))),), (VX, VY)),
@@ -70,10 +74,10 @@ SPECS = {
     "rule": "special",
     "rule_ref": "special",
 }
-USER_CODE = {"pred": "p_eq", "pcls": "PEq", "meth": "is_p"}
+USER_CODE = {"pred": "p_eq", "pcls": "PEq", "meth": "is_p", "indep_pred": "p_eq"}
 POOLS = {
-    "A": ("join", "or_same", "union", "negand", "xonly"),
-    "B": ("pred", "pcls", "meth", "and_unions"),
+    "A": ("join", "or_same", "union", "negand", "xonly", "indep"),
+    "B": ("pred", "pcls", "meth", "and_unions", "indep_pred"),
     "C": ("the1", "the2", "dup", "dupjoin", "iter", "rule", "rule_ref"),
 }
 
@@ -85,7 +89,7 @@ def alphabet(pool):
             ops.append(("F", name))
             continue
         ops += [("F", name), ("T1", name), ("K1", name)]
-        if name in ("join", "union", "and_unions", "dupjoin", "rule", "iter"):
+        if name in ("join", "union", "and_unions", "dupjoin", "rule", "iter", "indep", "indep_pred"):
             ops.append(("T2", name))
         if name in USER_CODE:
             ops += [("R1", name), ("R2", name)]
@@ -98,6 +102,8 @@ def bounds(tier):
 
 def cases(tier, inst):
     d = 2 if tier == "quick" else 3
+    if tier == "thorough" and os.environ.get("EQLMC_C04_DEPTH"):
+        d = int(os.environ["EQLMC_C04_DEPTH"])
     for pool in POOLS:
         # deviation order: histories are enumerated by length; within a length in alphabet order (full steps first)
         for hist in sequences(alphabet(pool), d):
